@@ -1,6 +1,7 @@
 import JadeModel.Proofs.Batch
 import JadeModel.Proofs.BatchBlocked
 import JadeModel.Proofs.BatchBlockedFull
+import JadeModel.Proofs.BatchBlockedAll
 import JadeModel.Model.Cluster
 
 /-!
@@ -138,6 +139,31 @@ theorem C07_round_feeds_status_update_partial (hnd : (cands.map (·.id)).Nodup) 
     statement, see DESIGN 0.9 -/
 theorem C07_blocked_looked_at_or_doomed : type_of% @Jade.Batch.makeBatch_blocked_looked_at_or_doomed :=
   @Jade.Batch.makeBatch_blocked_looked_at_or_doomed
+
+/-- **The round's two hand-overs never share a job — any batching mode** (size-based or time-based): a job
+    `_submit_batches` reports as blocked is in none of the batches of that call.  (`Proofs/BatchBlockedAll.lean`: a job above
+    the cursor in the blocked dictionary has all its blockers in the batch just made, and a candidate with a blocker in an
+    earlier batch of the round is never placed.) -/
+theorem C07_blocked_not_submitted (hnd : (cands.map (·.id)).Nodup) :
+    ∀ c ∈ (submitBatches p depth dryRun out cands env).blocked,
+      c.id ∉ (allJobs (submitBatches p depth dryRun out cands env).batches).map (·.id) := by
+  intro c hc hmem
+  obtain ⟨d, hd, hid⟩ := List.mem_map.1 hmem
+  exact submitBatches_blocked_disjoint_all p depth dryRun out cands env hnd c hc d hd hid.symm
+
+/-- …and therefore any `UpdateArgs` built from a round satisfy the submit-phase hypotheses of the status update's acceptance
+    theorem (`UpdateArgsOK.subNodup`, first clause of `UpdateArgsOK.blk`), whatever the batching mode -/
+theorem C07_round_feeds_status_update (hnd : (cands.map (·.id)).Nodup) (a : Jade.Cluster.UpdateArgs)
+    (hsub : a.submitted = (allJobs (submitBatches p depth dryRun out cands env).batches).map (·.id))
+    (hblk : a.blocked.map (·.1) = (submitBatches p depth dryRun out cands env).blocked.map (·.id)) :
+    a.submitted.Nodup ∧ ∀ b ∈ a.blocked, b.1 ∉ a.submitted := by
+  refine ⟨hsub ▸ C07_batches_disjoint p depth dryRun out cands env hnd, ?_⟩
+  intro b hb
+  have hmem : b.1 ∈ (submitBatches p depth dryRun out cands env).blocked.map (·.id) := by
+    rw [← hblk]; exact List.mem_map.2 ⟨b, hb, rfl⟩
+  obtain ⟨c, hc, hid⟩ := List.mem_map.1 hmem
+  rw [hsub, ← hid]
+  exact C07_blocked_not_submitted p depth dryRun out cands env hnd c hc
 
 theorem C07_rollback_hands_blocked_job_on : type_of% @Jade.Batch.rollback_hands_blocked_job_on :=
   @Jade.Batch.rollback_hands_blocked_job_on
